@@ -3,6 +3,7 @@
 -/
 import LpModel.C20
 import LpProofs.C20.Units
+import LpProofs.C20.IO
 namespace Lp.C20
 
 /-! ## Initialisation order -/
@@ -107,5 +108,238 @@ theorem joule_def (T : Transc) :
         / (value T unitDefs "sec" * value T unitDefs "sec") :=
   (derived_units_sem T ("Joule", .div (.mul (.ref "kg") (.mul (.ref "meter") (.ref "meter")))
       (.mul (.ref "sec") (.ref "sec"))) (by simp [derivedIdentities])).1
+
+/-! ## Six significant digits, export / import (token level) -/
+open Lp.Dec
+
+/-- **fmt6_roundtrip** (token level): for every rational `x ≠ 0` the number written by
+    `ostream << x` is a six-digit decimal `±m·10^(e'−5)`, `10^5 ≤ m < 10^6`, whose value `v`
+    (what `>>` reads back) satisfies `|v − x| ≤ ½·10^(e(x)−5)`, `e(x) = ⌊log₁₀|x|⌋`.
+    (Character level — `parseDec (render d) = d.value` — is validated by the driver on every
+    request and by the `example`s below, not proved.) -/
+theorem fmt6_roundtrip (x : ℚ) (hx : x ≠ 0) :
+    ∃ d : Dec6, tokOf x = .num d ∧ fmt6 x = render d ∧ (tokOf x).value = some d.value ∧
+      100000 ≤ d.m ∧ d.m ≤ 999999 ∧
+      pow10 (expo10 |x|) ≤ |x| ∧ |x| < pow10 (expo10 |x| + 1) ∧
+      |d.value - x| ≤ 1 / 2 * pow10 (expo10 |x| - 5) := by
+  obtain ⟨d, hd, hb, hm1, hm2⟩ := tokOf_bound x hx
+  have hs := expo10_spec |x| (abs_pos.mpr hx)
+  exact ⟨d, hd, by simp [fmt6, hd, Tok.chars], by simp [hd, Tok.value], hm1, hm2, hs.1, hs.2, hb⟩
+
+theorem fmt6_zero : fmt6 0 = ['0'] ∧ (tokOf 0).value = some 0 := by
+  simp [fmt6, tokOf, Tok.chars, Tok.value]
+
+example : String.ofList (fmt6 (1234567 / 1000)) = "1234.57" ∧ parseDec (fmt6 (1234567 / 1000)) = some (123457 / 100) := by
+  decide +kernel
+example : String.ofList (fmt6 (-1 / 4000000)) = "-2.5e-07" ∧ parseDec (fmt6 (-1 / 4000000)) = some (-1 / 4000000) := by
+  decide +kernel
+example : String.ofList (fmt6 (9999995 / 10)) = "1e+06" ∧ String.ofList (fmt6 1234565) = "1.23456e+06" := by
+  decide +kernel
+
+/-- what one entry `x` in units `u` becomes after export and import: `v·u` with `v` the
+    six-digit value of `x/u` -/
+theorem back_bound (x u : ℚ) :
+    ∃ v, back x u = v * u ∧ (x / u = 0 → v = 0) ∧
+      (x / u ≠ 0 → |v - x / u| ≤ 1 / 2 * pow10 (expo10 |x / u| - 5)) := by
+  unfold back
+  by_cases h : x / u = 0
+  · refine ⟨0, ?_, fun _ => rfl, fun h' => absurd h h'⟩
+    simp [tokOf, h, Tok.value]
+  · obtain ⟨d, hd, hb, _, _⟩ := tokOf_bound (x / u) h
+    exact ⟨d.value, by simp [hd, Tok.value], fun h' => absurd h' h, fun _ => hb⟩
+
+/-- **table_roundtrip** (token level): for every rectangular table (`r ≥ 1` rows, `c ≥ 1` columns),
+    every header (any number of lines, any content), no unit factors or one per column:
+    `Export_Table` succeeds, and `Import_Table` with the same unit factors and the number of
+    header lines written returns a table of the same shape whose entry `(i,j)` is
+    `back x_ij u_j` — within half a unit of the sixth significant digit in units `u_j`
+    (`back_bound`; a unit factor `0` makes `x/u` meaningless, the bound needs `u ≠ 0` only
+    through `x/u`). -/
+theorem table_roundtrip (data : List (List ℚ)) (dims : List ℚ) (header : List (List Tok)) (c : ℕ)
+    (hr : data ≠ []) (hc : 1 ≤ c) (hrect : ∀ row ∈ data, row.length = c)
+    (hd : dims = [] ∨ dims.length = c) :
+    ∃ f, exportT data dims header = .ok f ∧ f.header = header ∧ f.rows.length = data.length ∧
+      importT f dims header.length
+        = .ok (data.map (fun row => List.zipWith back row (unitRow dims row))) := by
+  have hguard : ¬ (!dims.isEmpty ∧ data.any (fun r => decide (r.length ≠ dims.length)) = true) := by
+    rintro ⟨h1, h2⟩
+    obtain ⟨row, hrow, hne⟩ := List.any_eq_true.mp h2
+    rcases hd with h | h
+    · simp [h] at h1
+    · simp [hrect row hrow, h] at hne
+  refine ⟨⟨header, data.map (exportRowT dims)⟩, ?_, rfl, by simp, ?_⟩
+  · unfold exportT; rw [if_neg hguard]
+  · unfold importT TFile.lines
+    simp only [List.length_append, List.length_map, List.drop_left]
+    have hnum : ∀ t ∈ (data.map (exportRowT dims)).flatten, ∃ v, t.value = some v := by
+      intro t ht
+      obtain ⟨l, hl, htl⟩ := List.mem_flatten.mp ht
+      obtain ⟨row, _, rfl⟩ := List.mem_map.mp hl
+      unfold exportRowT at htl
+      obtain ⟨i, hi, rfl⟩ := List.mem_iff_getElem.mp htl
+      simp only [List.getElem_zipWith]
+      exact tokOf_value_some _
+    rw [readAll_num _ hnum, ← List.map_flatten]
+    have hrows : ∀ l ∈ data.map (fun row => (exportRowT dims row).map tokVal), l.length = c := by
+      intro l hl
+      obtain ⟨row, hrow, rfl⟩ := List.mem_map.mp hl
+      rw [List.length_map, exportRowT_length dims row c (hrect row hrow) hd]
+    have hvals : ((data.map (exportRowT dims)).map (List.map tokVal)).flatten
+        = (data.map (fun row => (exportRowT dims row).map tokVal)).flatten := by
+      rw [List.map_map]; rfl
+    rw [List.map_flatten, hvals]
+    unfold importCore
+    have hlen : 0 < data.length := List.length_pos_iff.mpr hr
+    rw [if_neg (by omega)]
+    have hrowsN : header.length + data.length - header.length = data.length := by omega
+    simp only [hrowsN]
+    have hflat := length_flatten_const _ c hrows
+    simp only [List.length_map] at hflat
+    have hcols : (data.map (fun row => (exportRowT dims row).map tokVal)).flatten.length / data.length = c := by
+      rw [hflat]; exact Nat.mul_div_cancel_left c hlen
+    rw [hcols]
+    have hg2 : ¬ (!dims.isEmpty ∧ dims.length ≠ c) := by
+      rintro ⟨h1, h2⟩
+      rcases hd with h | h
+      · simp [h] at h1
+      · exact h2 h
+    rw [if_neg hg2]
+    have hch := chunks_flatten _ c hrows
+    simp only [List.length_map] at hch
+    rw [hch, List.map_map]
+    congr 1
+    apply List.map_congr_left
+    intro row hrow
+    exact row_back dims row c hd
+
+/-- same shape -/
+theorem table_roundtrip_shape (data : List (List ℚ)) (dims : List ℚ) (c : ℕ)
+    (hrect : ∀ row ∈ data, row.length = c) (hd : dims = [] ∨ dims.length = c) :
+    (data.map (fun row => List.zipWith back row (unitRow dims row))).length = data.length ∧
+    ∀ row ∈ data.map (fun row => List.zipWith back row (unitRow dims row)), row.length = c := by
+  refine ⟨by simp, ?_⟩
+  intro l hl
+  obtain ⟨row, hrow, rfl⟩ := List.mem_map.mp hl
+  rw [List.length_zipWith, unitRow_length dims row c (hrect row hrow) hd, hrect row hrow]; simp
+
+example : ∃ f, exportT [[1, 5 / 2], [3, 1099511627776]] [1, 2] [[.raw "#".toList, .raw "h".toList]] = .ok f ∧
+    importT f [1, 2] 1 = .ok [[1, 5 / 2], [3, 1099512000000]] := by
+  refine ⟨_, rfl, ?_⟩
+  decide +kernel
+
+/-- **list_roundtrip** (token level): `Import_List(Export_List(data, u, header), u, #header lines)`
+    has the same length and entry `i` is `back x_i u` -/
+theorem list_roundtrip (data : List ℚ) (u : ℚ) (header : List (List Tok)) :
+    importListT (exportListT data u header) u header.length = data.map (fun x => back x u) := by
+  unfold importListT exportListT
+  rw [List.drop_left]
+  have hnum : ∀ t ∈ (data.map (fun x => [tokOf (x / u)])).flatten, ∃ v, t.value = some v := by
+    intro t ht
+    obtain ⟨l, hl, htl⟩ := List.mem_flatten.mp ht
+    obtain ⟨x, _, rfl⟩ := List.mem_map.mp hl
+    simp only [List.mem_singleton] at htl
+    subst htl
+    exact tokOf_value_some _
+  rw [readAll_num _ hnum]
+  induction data with
+  | nil => rfl
+  | cons x r ih =>
+    simp only [List.map_cons, List.flatten_cons, List.singleton_append, back, tokVal]
+    congr 1
+    apply ih
+    intro t ht
+    exact hnum t (by simp only [List.map_cons, List.flatten_cons, List.singleton_append, List.mem_cons]; exact Or.inr ht)
+
+/-- dimension mismatch → diagnostic (export and import) -/
+theorem exportT_mismatch (data : List (List ℚ)) (dims : List ℚ) (header : List (List Tok))
+    (hd : dims ≠ []) (row : List ℚ) (hrow : row ∈ data) (hne : row.length ≠ dims.length) :
+    exportT data dims header = .error .diag := by
+  unfold exportT
+  rw [if_pos]
+  refine ⟨by simpa using hd, ?_⟩
+  exact List.any_eq_true.mpr ⟨row, hrow, by simpa using hne⟩
+
+theorem importCore_mismatch (n : ℕ) (vals dims : List ℚ) (k : ℕ) (hk : k < n) (hd : dims ≠ [])
+    (hne : dims.length ≠ vals.length / (n - k)) : importCore n vals dims k = .error .diag := by
+  unfold importCore
+  rw [if_neg (by omega), if_pos ⟨by simpa using hd, hne⟩]
+
+/-! ## In_Units -/
+
+/-- **inUnits_undo**: `In_Units(x·u, u) = x` for `u ≠ 0`; with rounding it is `Round(x, digits)` -/
+theorem inUnits_undo (x u : ℚ) (hu : u ≠ 0) (d : ℕ) :
+    inUnits (x * u) u false d = .ok x ∧ inUnits (x * u) u true d = C17.round x d := by
+  unfold inUnits
+  simp [mul_div_cancel_right₀ x hu]
+
+theorem inUnitsList_undo (xs : List ℚ) (u : ℚ) (hu : u ≠ 0) (d : ℕ) :
+    inUnitsList (xs.map (· * u)) u false d = .ok xs := by
+  unfold inUnitsList
+  induction xs with
+  | nil => rfl
+  | cons x r ih =>
+    simp only [List.map_cons, mapE, (inUnits_undo x u hu d).1, ih]
+    rfl
+
+theorem inUnitsTable_undo (t : List (List ℚ)) (u : ℚ) (hu : u ≠ 0) (d : ℕ) :
+    inUnitsTable (t.map (fun r => r.map (· * u))) u false d = .ok t := by
+  unfold inUnitsTable
+  induction t with
+  | nil => rfl
+  | cons x r ih =>
+    simp only [List.map_cons, mapE, inUnitsList_undo x u hu d, ih]
+    rfl
+
+theorem zipE_undo : ∀ (row us : List ℚ), row.length = us.length → (∀ u ∈ us, u ≠ 0) → ∀ d : ℕ,
+    zipE (fun x u => inUnits x u false d) (List.zipWith (· * ·) row us) us = .ok row := by
+  intro row
+  induction row with
+  | nil => intro us h _ d; cases us <;> simp_all [zipE]
+  | cons x r ih =>
+    intro us h hu d
+    cases us with
+    | nil => simp at h
+    | cons u s =>
+      simp only [List.zipWith_cons_cons, zipE, (inUnits_undo x u (hu u (by simp)) d).1,
+        ih s (by simpa using h) (fun u' hu' => hu u' (by simp [hu'])) d]
+      rfl
+
+/-- per-column overload -/
+theorem inUnitsCols_undo (t : List (List ℚ)) (us : List ℚ) (hrect : ∀ r ∈ t, r.length = us.length)
+    (hu : ∀ u ∈ us, u ≠ 0) (d : ℕ) :
+    inUnitsCols (t.map (fun r => List.zipWith (· * ·) r us)) us false d = .ok t := by
+  unfold inUnitsCols
+  induction t with
+  | nil => rfl
+  | cons x r ih =>
+    have hx : x.length = us.length := hrect x (by simp)
+    simp only [List.map_cons, mapE]
+    rw [if_neg (by simp [List.length_zipWith, hx]), zipE_undo x us hx hu d,
+      ih (fun r' hr' => hrect r' (by simp [hr']))]
+    rfl
+
+/-- all overloads preserve the shape (also with rounding) -/
+theorem inUnitsList_length (xs : List ℚ) (u : ℚ) (r : Bool) (d : ℕ) (ys : List ℚ)
+    (h : inUnitsList xs u r d = .ok ys) : ys.length = xs.length := by
+  unfold inUnitsList at h
+  induction xs generalizing ys with
+  | nil => simp [mapE] at h; subst h; rfl
+  | cons x r' ih =>
+    simp only [mapE] at h
+    cases hx : inUnits x u r d with
+    | error e => simp [hx, bind, Except.bind] at h
+    | ok b =>
+      cases hr : mapE (fun x => inUnits x u r d) r' with
+      | error e => simp [hx, hr, bind, Except.bind] at h
+      | ok bs =>
+        simp [hx, hr, bind, Except.bind, pure, Except.pure] at h
+        subst h
+        simp [ih bs hr]
+
+/-- dimension-count mismatch → diagnostic -/
+theorem inUnitsCols_mismatch (row : List ℚ) (rest : List (List ℚ)) (us : List ℚ) (r : Bool) (d : ℕ)
+    (hne : row.length ≠ us.length) : inUnitsCols (row :: rest) us r d = .error .diag := by
+  unfold inUnitsCols
+  simp [mapE, hne, bind, Except.bind]
 
 end Lp.C20
